@@ -527,6 +527,13 @@ let () =
           | "16BE" -> Utf.utf16_encode true t
           | _ -> failwith "bad form" in
         print_string ("R " ^ hex_of_string (ocaml_of_bytes b) ^ "\n"); flush stdout
+      | ["GLUE8"; h] ->
+        (* the driver's own hand-written UTF-8 glue (used on oracle answers), for the cross-check against Utf.utf8_chars / utf8_encode *)
+        let t = text_of_utf8 (string_of_hex h) in
+        print_string ("R " ^ SS.concat "," (SL.map (fun c -> string_of_int (int_of_n c)) t) ^ "\n"); flush stdout
+      | ["GLUE8E"; cps] ->
+        let t = if cps = "-" then [] else SL.map (fun x -> n_of_int (int_of_string x)) (SS.split_on_char ',' cps) in
+        print_string ("R " ^ hex_of_string (utf8_of_text t) ^ "\n"); flush stdout
       | ["U8CHARS"; h] ->
         let t = Utf.utf8_chars (bytes_of_ocaml (string_of_hex h)) in
         print_string ("R " ^ SS.concat "," (SL.map (fun c -> string_of_int (int_of_n c)) t) ^ "\n"); flush stdout
